@@ -891,3 +891,74 @@ func ruleCleanupOnlyIdFailures(w *core.World, r *core.Report, rule string) {
 		}
 	}
 }
+
+// rulePatternAnchored (C04, C12): YANG patterns are XSD regular expressions, which match the WHOLE value (RFC 7950
+// 9.4.5); Go's regexp finds a match anywhere. Every regexp.MatchString / Compile / MustCompile whose expression comes
+// from a schema pattern (sdcpb.SchemaPattern) must be handed the anchored form: the argument is built by a
+// concatenation that puts a constant containing '^' in front and one containing '$' behind the pattern.
+func rulePatternAnchored(w *core.World, r *core.Report, rule string) {
+	n := 0
+	for _, f := range w.RepoFns {
+		for _, c := range core.OwnCalls(f) {
+			if !core.CalleeIs(c, "regexp.MatchString", "regexp.Compile", "regexp.MustCompile", "regexp.Match") {
+				continue
+			}
+			arg := c.Common().Args[0]
+			fromSchema := false
+			hasHead, hasTail := false, false
+			seen := map[ssa.Value]bool{}
+			var walk func(v ssa.Value, d int)
+			walk = func(v ssa.Value, d int) {
+				if v == nil || seen[v] || d > 8 {
+					return
+				}
+				seen[v] = true
+				for _, o := range append(core.Origins(v), v) {
+					switch x := o.(type) {
+					case *ssa.BinOp:
+						if x.Op == token.ADD {
+							walk(x.X, d+1)
+							walk(x.Y, d+1)
+						}
+					case *ssa.Const:
+						if t, ok := core.ConstString(x); ok {
+							if strings.Contains(t, "^") {
+								hasHead = true
+							}
+							if strings.Contains(t, "$") {
+								hasTail = true
+							}
+						}
+					case *ssa.Call:
+						if strings.HasSuffix(core.CalleeKey(x), "sdcpb.SchemaPattern.GetPattern") {
+							fromSchema = true
+						}
+						if g := x.Call.StaticCallee(); g != nil && g.Blocks != nil && strings.HasPrefix(core.FuncKey(g), "utils.") && d < 6 {
+							// a helper of the repository that builds the expression: its result, with its parameters bound
+							for _, ret := range core.Returns(g) {
+								for _, rv := range core.ReturnValues(ret) {
+									walk(rv, d+1)
+								}
+							}
+							for _, a := range x.Call.Args {
+								walk(a, d+1)
+							}
+						}
+					}
+					if strings.HasSuffix(core.FieldOf(o), "sdcpb.SchemaPattern.Pattern") {
+						fromSchema = true
+					}
+				}
+			}
+			walk(arg, 0)
+			if !fromSchema {
+				continue
+			}
+			n++
+			r.Check(hasHead && hasTail, rule, core.Site(f, "schema pattern matched against the whole value"), w.InstrPos(c), "the YANG pattern is handed to Go's regexp as it is: a value that merely CONTAINS a match is accepted")
+		}
+	}
+	if n == 0 {
+		r.Undecided(rule, "regexp calls on schema patterns", "", "no regexp call takes its expression from sdcpb.SchemaPattern")
+	}
+}
